@@ -180,17 +180,40 @@ def simulate(cfg_name, num, depth, seed, module="MC_Eco", timeout=900, procs=Non
 
 
 # ---------------------------------------------------------------- behaviours -> harness
-def behaviours_to_ndjson(behs, path, profiles, seed, idprefix="b"):
-    """behs: list of state lists (from TLC).  Writes one behaviour per line."""
+def behaviours_to_ndjson(behs, path, profiles, seed, idprefix="b", observers=None, family="eco"):
+    """behs: list of state lists (from TLC).  Writes one behaviour per line.
+    observers: None | "export" (ExportImport steps sprinkled in and at the end) |
+    "replica" (random restarts at block boundaries, replicas at the end)."""
+    import random
+    rng = random.Random(seed * 31 + 7)
     with open(path, "w") as f:
         for i, states in enumerate(behs):
             prof = profiles[i % len(profiles)]
             steps = []
+            evk, stk = ("dev", "dst") if family == "data" else ("ev", "st")
             for s in states[1:]:
-                m = s["ev"]["m"]
+                m = s[evk]["m"]
+                if observers == "replica" and m["type"] == "BeginBlock":
+                    m = dict(m, restart=rng.random() < 0.5)
                 steps.append(m)
+                if observers == "export" and rng.random() < 0.3:
+                    steps.append({"type": "ExportImport"})
+                if observers == "query" and rng.random() < 0.25:
+                    steps.append({"type": "Query", "n": 10})
+            if observers == "export":
+                steps.append({"type": "ExportImport"})
+            if observers == "replica":
+                steps.append({"type": "Replica", "n": 3})
+            if observers == "query":
+                steps.append({"type": "Query", "n": 16})
             b = {"id": "%s%d" % (idprefix, i), "unit": prof["unit"], "render": prof["render"], "seed": seed * 1000 + i,
-                 "genesis": states[0]["st"], "steps": steps}
+                 "family": family, "steps": steps}
+            if family == "data":
+                d0 = states[0]["dst"]
+                b["genesis"] = "default"
+                b["weak"] = None if d0.get("production") else {"minlen": d0["minlen"], "hashlen": d0["hashlen"], "table": d0["hash"]}
+            else:
+                b["genesis"] = states[0]["st"]
             f.write(json.dumps(b) + "\n")
 
 
